@@ -9,7 +9,7 @@ mkdir -p /tmp/sw
 git -C /repo worktree add -q --detach $wt HEAD || exit 2
 trap 'git -C /repo worktree remove --force '$wt' >/dev/null 2>&1; git -C /repo worktree prune' EXIT
 (cd $wt && git apply /verif/seeded/$id/patch.diff) || { echo "$id $prop: PATCH DOES NOT APPLY"; exit 3; }
-cd /verif
+cd ${VERIF_HOME:-/verif}
 t0=$(date +%s)
 VERIF_REPO=$wt ./vcheck $prop $tier > /tmp/sw/$id-$prop.out 2>&1; rc=$?
 t1=$(date +%s)
